@@ -41,6 +41,8 @@ B = {
     "plain+edit-leaf": (None, [], {}, [], MOD, {"leaf": 5}),
     "plain+gogarble": (None, [], {"GOGARBLE": MOD}, [], MOD, None),
 }
+if tier == "quick":
+    for k in ("seeded+tiny", "seeded+tags", "seeded+edit-leaf", "seeded+rename", "plain+edit-leaf", "plain+gogarble"): B.pop(k)
 if tier != "quick":
     B.update({
         "plain+tiny": (None, ["-tiny"], {}, [], MOD, None),
